@@ -210,6 +210,29 @@ for (n, cost, q, mem) in [("co_take_l2", 240, 0, 10), ("co_take_l0", 10, 1, 3), 
     add(C + n, "alloc", "C15", quick=["C15"] if q else [], thorough=["C15"], cost=cost, timeout=3000, mem_gb=mem,
         source_len=n[-1] if n[-2] == "l" else "n/a", n="symbolic 0..=3", pending_per_item="0..=1 for depth-1 stacks, 0 for deeper stacks")
 
+# out-of-order sink (completion order != source order)
+add(C + "co_enumerate_buf_l2", "alloc", "C15", quick=["C15"], cost=150, mem_gb=14, timeout=2400, source_len=2, sink="parks the futures, completes them in a solver-chosen order", pending_per_item="0..=1")
+add(C + "co_map_enumerate_buf_l2", "alloc", "C15", thorough=["C15"], cost=750, mem_gb=24, timeout=3000, source_len=2, sink="out of order")
+add(C + "co_enumerate_take_buf_l2", "alloc", "C15", thorough=["C15"], cost=600, mem_gb=34, timeout=3000, source_len=2, sink="out of order", n="symbolic 0..=3")
+
+# groups in the std configuration (quiet members: wake-ups between operations only)
+GS_ = "fam_group::std_proofs::"
+for (n, cost, mem, q, fam, hist) in [
+        ("fgroup_std_micro3", 76, 5, 1, "C11", "insert, poll, poll"),
+        ("fgroup_std_keyed_micro3", 80, 5, 0, "C11", "keyed: insert, poll, poll"),
+        ("fgroup_std_micro4", 150, 6, 0, "C11", "insert, poll, poll, poll"),
+        ("fgroup_std_two", 360, 10, 1, "C11", "insert, insert, poll, poll"),
+        ("fgroup_std_remove", 280, 9, 0, "C11", "insert, insert, poll (member 0 pending), remove(0), poll"),
+        ("fgroup_std_grow_live", 600, 34, 0, "C11", "insert, poll (pending), insert (capacity grows), poll"),
+        ("fgroup_std_rsv_live", 400, 26, 0, "C11", "insert, poll (pending), reserve(1), poll"),
+        ("sgroup_std_micro3", 80, 5, 1, "C12", "insert, poll, poll"),
+        ("sgroup_std_item_then_any", 61, 4, 1, "C12", "insert, poll (item), poll"),
+        ("sgroup_std_two", 900, 36, 0, "C12", "insert, insert, poll, poll"),
+        ("sgroup_std_grow_live", 600, 34, 0, "C12", "insert, poll (pending), insert (capacity grows), poll")]:
+    props = ["C01", "C16", fam, "C03", "C20"]
+    add(GS_ + n, "std", "C16", quick=props if q else [], thorough=props, cost=cost, mem_gb=mem, timeout=3000, history=hist,
+        member_behaviour="symbolic results; wake-ups between operations only (fire phase), none from inside polls")
+
 ASSUMPTIONS = [
     "bounded: every claim holds only for the children / rounds / items / history lengths listed per harness (unwinding assertions are on, so a bound that is too small is reported, not silently truncated)",
     "Kani 0.68 models panics as the end of the path: no unwinding, so the panic-in-child clause of C02 is outside the claim",
@@ -221,7 +244,18 @@ ASSUMPTIONS = [
 ]
 
 
+def promote_cheap():
+    """Every harness that is cheap (measured <= 60 s under load) serves, in the quick tier, all
+    the properties it serves at all: the generic assertions (C01, C02, C03, C20) then see every
+    container / family in the check that runs on every change."""
+    for h in H:
+        if h["cost"] <= 60 and h["quick"]:
+            h["quick"] = sorted(set(h["quick"]) | set(h["thorough"]))
+            h["thorough"] = []
+
+
 def main():
+    promote_cheap()
     json.dump({"harnesses": H, "assumptions": ASSUMPTIONS}, open(os.path.join(ROOT, "harnesses.json"), "w"), indent=1)
     props = sorted({p for h in H for p in h["quick"] + h["thorough"]})
     print(len(H), "entries;", "properties:", " ".join(props))
